@@ -6,15 +6,32 @@ is the denotation `Calls.calls`. The named corollaries read it off for the shape
 speaks about: a top-level chain `pre ++ fns` whose prefix `pre` makes no call (`fnFree`).
 -/
 import JPV.Lemmas.CallLog
+import JPV.Lemmas.CallErr
+import JPV.Lemmas.CallTie
+import JPV.Lemmas.BuildConn
+import JPV.Lemmas.BuildWf
 import JPV.Registry
 namespace JPV
 namespace C14
-open Impl TSem Calls CL
+open Impl TSem Calls CL CE
 
 /-- the log of a run is the denoted call sequence -/
 theorem C14_log_eq_calls (env : Env) (ch : List N) (hwf : wfChain env ch = true) (d : Val) :
     (Impl.run env ch d).2.log = calls env ch d d :=
   run_log env ch hwf d
+
+/-- calls inside filter operands follow the evaluation order of the query, short-circuits
+    included: in `$[?(@.a && @.twice())]` the right operand is evaluated (once per member, in member
+    order) unless the left list is the whole-match "no" -/
+example :
+    calls Registry.env [.filter ⟨"", "", true, false⟩ (.and (.exist (.pcur [.child ⟨"", "", false, false⟩ "a"]))
+        (.exist (.pcur [.ffn ⟨"", "", false, false⟩ "twice"])))]
+      (.arr [.obj [("a", .num 1)], .num 5]) (.arr [.obj [("a", .num 1)], .num 5])
+      = [.ffn "twice" (.obj [("a", .num 1)]), .ffn "twice" (.num 5)] ∧
+    calls Registry.env [.filter ⟨"", "", true, false⟩ (.and (.exist (.pcur [.child ⟨"", "", false, false⟩ "a"]))
+        (.exist (.pcur [.ffn ⟨"", "", false, false⟩ "twice"])))]
+      (.arr [.num 4, .num 5]) (.arr [.num 4, .num 5]) = [] :=
+  ⟨rfl, rfl⟩
 
 /-- A filter function after a function-free path is called exactly once for each value the
     path selects, in result order, with that value; the results are its successful return
@@ -171,5 +188,121 @@ theorem C14_chain_aggregate (env : Env) (pre : List N) (i j : Info) (aname fname
     rw [hD, hr]
     rfl
 
+/-! ### nothing selected because functions failed -/
+
+/-- If the path before the functions selects something but the whole chain selects nothing,
+    the run errs with `ErrorFunctionFailed` of one of the filter-function nodes, and a call of
+    that function that returned an error is in the log.
+    `ConnSep pre fns`: every function's connectedText is non-empty and shorter than that of every
+    navigation node before it — how `Parse` lays them out (connectedText = the path text from
+    the node to the end); `addDeepestError` compares exactly these lengths. Without it the
+    claim is false in the model (see the note after `C14_all_failed_built`, which discharges it
+    for the trees `Parse` builds). -/
+theorem C14_all_failed (env : Env) (pre fns : List N)
+    (hwf : wfChain env (pre ++ fns) = true) (hfree : fnFree pre = true) (hall : allFfn fns = true)
+    (hsep : ConnSep pre fns)
+    (d : Val) (hsel : den env pre d d ≠ []) (hnone : den env (pre ++ fns) d d = []) :
+    ∃ n ∈ fns, (Impl.run env (pre ++ fns) d).1 = .err (.func n.info) ∧
+      ∃ c ∈ (Impl.run env (pre ++ fns) d).2.log, callOf n c = true ∧ failedCall env c = true :=
+  all_failed_pre env pre fns hwf hfree hall hsep d hsel hnone
+
+/-- non-vacuity: the tree `Parse` builds for `$[*].a.failAll()` (the `$` deleted), on
+    `[{"a":1},{"b":2}]`: `.a` is missing in the second element, the function fails on the first -/
+example :
+    let pre : List N := [.wild ⟨"[*]", "[*].a.failAll()", true, false⟩, .child ⟨".a", ".a.failAll()", false, false⟩ "a"]
+    let fns : List N := [.ffn ⟨".failAll()", ".failAll()", false, false⟩ "failAll"]
+    let d : Val := .arr [.obj [("a", .num 1)], .obj [("b", .num 2)]]
+    wfChain Registry.env (pre ++ fns) = true ∧ fnFree pre = true ∧ allFfn fns = true ∧ ConnSep pre fns ∧
+      den Registry.env pre d d ≠ [] ∧ den Registry.env (pre ++ fns) d d = [] := by
+  refine ⟨by decide, by decide, by decide, connSepB_sound (by decide), ?_, rfl⟩
+  intro h
+  have : den Registry.env [.wild ⟨"[*]", "[*].a.failAll()", true, false⟩, .child ⟨".a", ".a.failAll()", false, false⟩ "a"]
+      (.arr [.obj [("a", .num 1)], .obj [("b", .num 2)]]) (.arr [.obj [("a", .num 1)], .obj [("b", .num 2)]]) = [.num 1] := rfl
+  rw [this] at h
+  cases h
+
+/-- The same after an aggregate function (`[.afn i a pre] ++ ffns`, the shape `Parse` builds for
+    `pre.a().f()…`): no loop surrounds the functions, so nothing about texts is assumed, and
+    `pre` may itself contain functions. The failing node may be the aggregate. -/
+theorem C14_all_failed_aggregate (env : Env) (pre ffns : List N) (i : Info) (a : String)
+    (hwf : wfChain env (.afn i a pre :: ffns) = true) (hall : allFfn ffns = true)
+    (d : Val) (hsel : den env pre d d ≠ []) (hnone : den env (.afn i a pre :: ffns) d d = []) :
+    ∃ n ∈ (N.afn i a pre :: ffns), (Impl.run env (.afn i a pre :: ffns) d).1 = .err (.func n.info) ∧
+      ∃ c ∈ (Impl.run env (.afn i a pre :: ffns) d).2.log, callOf n c = true ∧ failedCall env c = true :=
+  all_failed_agg env pre ffns i a hwf hall d hsel hnone
+
+/-- non-vacuity: `$[*].max().failAll()` on `[1,2]` -/
+example :
+    let pre : List N := [.wild ⟨"[*]", "", true, false⟩]
+    wfChain Registry.env [.afn ⟨".max()", "", false, false⟩ "max" pre, .ffn ⟨".failAll()", "", false, false⟩ "failAll"] = true ∧
+      den Registry.env pre (.arr [.num 1, .num 2]) (.arr [.num 1, .num 2]) = [.num 1, .num 2] ∧
+      den Registry.env [.afn ⟨".max()", "", false, false⟩ "max" pre, .ffn ⟨".failAll()", "", false, false⟩ "failAll"]
+        (.arr [.num 1, .num 2]) (.arr [.num 1, .num 2]) = [] :=
+  ⟨by decide, rfl, rfl⟩
+
+/-- With no assumption on texts at all: some logged call returned an error. -/
+theorem C14_some_call_failed (env : Env) (pre fns : List N)
+    (hwf : wfChain env (pre ++ fns) = true) (hfree : fnFree pre = true) (hall : allFfn fns = true)
+    (d : Val) (hsel : den env pre d d ≠ []) (hnone : den env (pre ++ fns) d d = []) :
+    ∃ c ∈ (Impl.run env (pre ++ fns) d).2.log, failedCall env c = true :=
+  some_failed env pre fns hwf hfree hall d hsel hnone
+
+/-- The error clause for the trees `Parse` builds, with no side condition on the tree
+    (`Build.build` is the net effect of the parser actions, C01/C02): for a path whose written
+    elements all have a non-empty text (the grammar produces no other) and whose functions are
+    all filter functions (after an aggregate: `C14_all_failed_aggregate`), whatever way the
+    built chain splits into a function-free prefix and filter functions. -/
+theorem C14_all_failed_built (env : Env) (cfg : Cfg) (h : Head) (steps : List Step) (pfns : List Fn)
+    (pre fns : List N) (d : Val)
+    (htexts : ∀ t ∈ steps.flatMap stepTexts ++ pfns.map fnText, t ≠ "")
+    (hffn : ∀ fn ∈ pfns, isFfnFn fn = true)
+    (hb : Build.build env cfg (.mk h steps pfns) = .ok (pre ++ fns))
+    (hfree : fnFree pre = true) (hall : allFfn fns = true)
+    (hsel : den env pre d d ≠ []) (hnone : den env (pre ++ fns) d d = []) :
+    ∃ n ∈ fns, (Impl.run env (pre ++ fns) d).1 = .err (.func n.info) ∧
+      ∃ c ∈ (Impl.run env (pre ++ fns) d).2.log, callOf n c = true ∧ failedCall env c = true :=
+  all_failed_pre env pre fns (BW.build_wf env cfg true _ _ hb) hfree hall
+    (build_connSep env cfg h steps pfns pre fns htexts hffn hb) d hsel hnone
+
+/-- non-vacuity: `$[*].a.failAll()` builds exactly the chain of the example after
+    `C14_all_failed`; its texts are non-empty and its only function is a filter function -/
+example :
+    Build.build Registry.env ⟨false⟩ (.mk .root [.wild "[*]", .child ".a" "a"] [.ffn ".failAll()" "failAll"]) =
+      .ok ([.wild ⟨"[*]", "[*].a.failAll()", true, false⟩, .child ⟨".a", ".a.failAll()", false, false⟩ "a"] ++
+        [.ffn ⟨".failAll()", ".failAll()", false, false⟩ "failAll"]) ∧
+    (∀ t ∈ [Step.wild "[*]", Step.child ".a" "a"].flatMap stepTexts ++ [Fn.ffn ".failAll()" "failAll"].map fnText, t ≠ "") ∧
+    (∀ fn ∈ [Fn.ffn ".failAll()" "failAll"], isFfnFn fn = true) := by
+  refine ⟨?_, by decide, by decide⟩
+  simp only [Build.build, BD.buildPath_eq, Build.stepsPre, Build.stepPre]
+  rfl
+
+/- Why `ConnSep` cannot simply be dropped from `C14_all_failed` (a tree `Parse` never builds):
+   pre = [wild ⟨"[*]","[*].a.f()"⟩, child ⟨".a",".a"⟩ "a"], fns = [ffn ⟨".failAll()",".failAll()"⟩ "failAll"],
+   d = [{"a":1},{"b":2}]: `#eval Impl.run Registry.env (pre ++ fns) d` gives
+   `err (member ⟨".a",".a",…⟩)` with log `[ffn "failAll" 1]` — the missing-member error of the
+   second branch is "deeper" (2 bytes) than the function's (10 bytes) and replaces it. -/
+
+/-! ### tie to the Go source (T1) -/
+
+/-- `(*syntaxFilterFunction).retrieve`, as regenerated from the Go source on every run, is the
+    `.ffn` equation of `Impl.retrieve` that all of the above rests on -/
+theorem C14_ffn_is_go (env : Env) (i : Info) (name : String) (f : Val → Option Val) (hf : env.ffn name = some f)
+    (rest : List N) (prev : Info) (root cur : Val) (aloc : Option Loc) (st : St) :
+    retrieve env (.ffn i name :: rest) prev root cur aloc st =
+      Gen.FunctionsGo.filterRetrieve (CallTie.filterRecv env i name f rest) root cur st :=
+  CallTie.ffn_tie env i name f hf rest prev root cur aloc st
+
+/-- `(*syntaxAggregateFunction).retrieve` likewise, for a well-formed parameter chain -/
+theorem C14_afn_is_go (env : Env) (i : Info) (name : String) (f : List Val → Option Val) (hf : env.afn name = some f)
+    (param rest : List N) (hwf : wfChain env param = true)
+    (prev : Info) (root cur : Val) (aloc : Option Loc) (st : St) :
+    retrieve env (.afn i name param :: rest) prev root cur aloc st =
+      Gen.FunctionsGo.aggregateRetrieve (CallTie.aggRecv env i name f param rest aloc) root cur st :=
+  CallTie.afn_tie env i name f hf param rest hwf prev root cur aloc st
+
+example : (Registry.env.ffn "twice").isSome = true ∧ (Registry.env.afn "max").isSome = true ∧
+    wfChain Registry.env [.wild ⟨"[*]", "", true, false⟩] = true := ⟨rfl, rfl, by decide⟩
+
 end C14
 end JPV
+-- OBLIGATIONS: JPV.C14.C14_log_eq_calls JPV.C14.C14_filter_calls JPV.C14.C14_aggregate_once JPV.C14.C14_chain JPV.C14.C14_chain_projections JPV.C14.C14_chain_aggregate JPV.C14.C14_all_failed JPV.C14.C14_all_failed_built JPV.C14.C14_all_failed_aggregate JPV.C14.C14_some_call_failed JPV.CL.log_eq_calls JPV.CL.log_eq_callsQ JPV.CL.log_eq_callsP JPV.CL.log_eq_calls_pcurLoop JPV.C14.C14_ffn_is_go JPV.C14.C14_afn_is_go
